@@ -582,21 +582,27 @@ def r14_bottom_clamp_siblings(ck, P, rid='C12-R14'):
             c, p, ops = f.cond(t.a[0])
             if c is None or c.op != 'icmp' or p not in ('sge', 'sgt', 'slt', 'sle'):
                 continue
-            sh = [o for o in ops if f.v(o) is not None and f.v(o).op == 'ashr' and f.v(o).a[1][0] == 'c' and int(f.v(o).a[1][1]) == 16]
-            if len(sh) != 1:
-                continue
-            # the other side: the image height, possibly plus a constant (x >= height is also written x > height - 1)
-            hs = []
-            for o in ops:
-                if o is sh[0]:
-                    continue
+            def height_side(o, scale):
                 lo = _lin(f, o) or {}
                 for kk, vv in lo.items():
-                    if kk != 1 and kk[0] == 'v' and vv == 1:
+                    if kk != 1 and kk[0] == 'v' and vv == scale:
                         y = f.by_id.get(kk[1])
                         if y is not None and y.op == 'load' and f.last_field(f.path(y.a[0])) == 'bits_image.height' and not (set(lo) - {kk, 1}):
-                            hs.append(['v', kk[1]])
-            if len(hs) != 1:
+                            return ['v', kk[1]]
+                return None
+            sh = [o for o in ops if f.v(o) is not None and f.v(o).op == 'ashr' and f.v(o).a[1][0] == 'c' and int(f.v(o).a[1][1]) == 16]
+            hs = []
+            if len(sh) == 1:
+                # the other side: the image height, possibly plus a constant (x >= height is also written x > height - 1)
+                hs = [h for h in (height_side(o, 1) for o in ops if o is not sh[0]) if h]
+                orig = f.v(sh[0]).a[0]
+            elif len(ops) == 2:
+                # the same test in the 16.16 domain: b >= pixman_int_to_fixed (height) (+ constant)
+                for i_, o in enumerate(ops):
+                    h = height_side(o, 65536)
+                    if h and ops[1 - i_][0] == 'v' and height_side(ops[1 - i_], 65536) is None:
+                        hs.append(h); sh = [ops[1 - i_]]; orig = ops[1 - i_]
+            if len(hs) != 1 or len(sh) != 1:
                 continue
             # the side on which the coordinate is at or beyond the height
             beyond_is_true = (p in ('sge', 'sgt')) == (ops.index(sh[0]) == 0)
@@ -610,7 +616,6 @@ def r14_bottom_clamp_siblings(ck, P, rid='C12-R14'):
                         continue
                     for a, bb in zip(x.a, x.d['bb']):
                         if bb == side or (bb == b.id and blk.id == side):
-                            orig = f.v(sh[0]).a[0]
                             others = [q for q, b2 in zip(x.a, x.d['bb']) if b2 != bb]
                             if any(q == orig for q in others):
                                 repl = a
